@@ -8,6 +8,9 @@ cases
   ["expr", src, env]               -> {"res", "prims": [...], "builtins": [...], "audit": [...]}
   ["ref", text]                    -> {"cpp_sha"}        (state-leak probe: same text before / after the stream)
   ["blowup", n]                    -> {"bits", "exc"}     bit length of _eval_const("2**2**n"), or the exception it raises
+  ["session", [text, ...], want_cpp] -> [{"sha", "exc", "changed": [module-level objects whose content changed], "cpp"?}, ...]
+                                      the texts transpiled one after the other in THIS process
+  ["rematch", file, name, pattern, flags, [text, ...]] -> [bool, ...]   real re: does the pattern match the whole text
 """
 import ast
 import hashlib
@@ -115,6 +118,11 @@ def do_script(text, limit):
         exc, msg = "Timeout", f"> {limit}s"
     except BaseException as e:  # noqa
         exc, msg = type(e).__name__, str(e)[:200]
+        # the statement names the classes: IndentationError / TabError are SyntaxErrors, UnicodeError is a ValueError
+        if isinstance(e, SyntaxError):
+            exc, msg = "SyntaxError", type(e).__name__ + ": " + msg
+        elif isinstance(e, ValueError):
+            exc, msg = "ValueError", type(e).__name__ + ": " + msg
     finally:
         _rec["on"] = False
         signal.alarm(0)
@@ -189,6 +197,88 @@ def do_expr(src, env_w, limit):
             "audit": _rec["events"][:10]}
 
 
+def _digest(v, depth=0):
+    """content of a module-level object, order-insensitively for sets / dicts; functions, classes, modules and compiled
+    patterns are immutable for this purpose"""
+    if depth > 6:
+        return "..."
+    if isinstance(v, (str, int, float, bool, bytes, type(None))):
+        return repr(v)
+    if isinstance(v, (list, tuple)):
+        return type(v).__name__ + "[" + ",".join(_digest(x, depth + 1) for x in v) + "]"
+    if isinstance(v, (set, frozenset)):
+        return type(v).__name__ + "{" + ",".join(sorted(_digest(x, depth + 1) for x in v)) + "}"
+    if isinstance(v, dict):
+        return "dict{" + ",".join(sorted(_digest(k, depth + 1) + ":" + _digest(x, depth + 1) for k, x in v.items())) + "}"
+    return "<" + type(v).__name__ + ">"
+
+
+def module_snapshot():
+    """name -> digest for every module-level binding of the three transpiler modules that is not a function / class /
+    module / compiled pattern / immutable scalar (the verification hook's own log excepted), plus function caches"""
+    import types
+    import Reduino.transpile.emitter as E
+    import Reduino.transpile.ast as A
+    out = {}
+    for mod in (P, E, A):
+        for k, v in list(vars(mod).items()):
+            if k.startswith("__") or k == "_VERIF_IGNORED":
+                continue
+            if isinstance(v, (types.FunctionType, types.BuiltinFunctionType)):
+                ci = getattr(v, "cache_info", None)
+                if ci is not None:
+                    out[f"{mod.__name__}.{k}.<cache>"] = repr(ci().currsize)
+                if v.__defaults__:
+                    d = [x for x in v.__defaults__ if isinstance(x, (list, dict, set))]
+                    if d:
+                        out[f"{mod.__name__}.{k}.<defaults>"] = _digest(d)
+                if getattr(v, "__dict__", None):
+                    out[f"{mod.__name__}.{k}.<attributes>"] = _digest({a: b for a, b in v.__dict__.items() if a != "__wrapped__"})
+                continue
+            if isinstance(v, (type, types.ModuleType)) or hasattr(v, "pattern"):
+                continue
+            if isinstance(v, (list, dict, set)):
+                out[f"{mod.__name__}.{k}"] = _digest(v)
+            elif hasattr(v, "cache_info"):
+                out[f"{mod.__name__}.{k}.<cache>"] = repr(v.cache_info().currsize)
+    return out
+
+
+def do_session(texts, want_cpp, limit):
+    out = []
+    for t in texts:
+        before = module_snapshot()
+        signal.alarm(limit)
+        rec = {}
+        try:
+            cpp = emit(parse(t))
+            rec = {"sha": hashlib.sha256(cpp.encode()).hexdigest(), "exc": None}
+            if want_cpp:
+                rec["cpp"] = cpp
+        except _Timeout:
+            rec = {"sha": None, "exc": "Timeout"}
+        except BaseException as e:  # noqa
+            rec = {"sha": None, "exc": "SyntaxError" if isinstance(e, SyntaxError) else "ValueError" if isinstance(e, ValueError) else type(e).__name__}
+        finally:
+            signal.alarm(0)
+        if hasattr(P, "_VERIF_IGNORED"):
+            del P._VERIF_IGNORED[:]
+        after = module_snapshot()
+        rec["changed"] = sorted(k for k in set(before) | set(after) if before.get(k) != after.get(k))
+        out.append(rec)
+    return out
+
+
+def do_rematch(fname, name, pattern, flags, texts):
+    import re as _re
+    obj = None
+    if fname == "transpile/parser.py":
+        obj = getattr(P, name, None)
+    if not hasattr(obj, "fullmatch"):
+        obj = _re.compile(pattern, flags)
+    return [obj.fullmatch(t) is not None for t in texts]
+
+
 def main():
     req = json.load(sys.stdin)
     limit = int(req.get("limit", 30))
@@ -198,9 +288,16 @@ def main():
         pass
     signal.signal(signal.SIGALRM, _alarm)
     out = []
+    stop_after = req.get("stop_after_timeouts")
+    n_timeouts = 0
     for c in req["cases"]:
         if c[0] == "script":
+            if stop_after is not None and n_timeouts >= stop_after:
+                out.append({"exc": "Skipped", "msg": "earlier scripts of this batch ran into the limit", "audit": [], "wall": 0.0})
+                continue
             out.append(do_script(c[1], limit))
+            if out[-1]["exc"] == "Timeout":
+                n_timeouts += 1
         elif c[0] == "expr":
             out.append(do_expr(c[1], c[2], limit))
         elif c[0] == "ref":
@@ -217,6 +314,10 @@ def main():
                 out.append({"bits": None, "exc": type(e).__name__})
             finally:
                 signal.alarm(0)
+        elif c[0] == "session":
+            out.append(do_session(c[1], bool(c[2]) if len(c) > 2 else False, limit))
+        elif c[0] == "rematch":
+            out.append(do_rematch(c[1], c[2], c[3], c[4], c[5]))
         elif c[0] == "tables":
             out.append({"safe_casts": list(P._SAFE_CASTS), "safe_names": sorted(P._SAFE_NAME_REFERENCES),
                         "max_const_bits": getattr(P, "_MAX_CONST_BITS", None)})
